@@ -90,16 +90,12 @@ TYPES_DATA = ["VISIBLE_STRING", "UNICODE_STRING", "OCTET_STRING", "DOMAIN"]
 
 
 def bounds(tier):
-    return {"bfs_depth": 3 if tier == "quick" else 5, "events": len(EVENTS),
+    return {"bfs_depth": 4 if tier == "quick" else 6, "events": len(EVENTS),
             "matrix_lengths": "0..24 + {40, 64}" if tier == "quick" else "0..64 + {127, 889, 10000}"}
 
 
 def cases(tier, seed):
     out = []
-    depth = 3 if tier == "quick" else 5
-    names = EVENT_NAMES[seed % len(EVENT_NAMES):] + EVENT_NAMES[:seed % len(EVENT_NAMES)]
-    for ev in names:
-        out.append({"part": "bfs", "first": ev, "depth": depth})
     lens = list(range(0, 25)) + [40, 64] if tier == "quick" else list(range(0, 65)) + [127, 889, 10000]
     for t in TYPES_NUM:
         out.append({"part": "matrix", "type": t, "seed": seed})
@@ -107,6 +103,41 @@ def cases(tier, seed):
         for chunk in range(0, len(lens), 8):
             out.append({"part": "matrix", "type": t, "lens": lens[chunk:chunk + 8], "seed": seed})
     return out
+
+
+def _probe_chunk(hists):
+    from mc.run import Stats
+    st = Stats()
+    for h in hists:
+        probe(h, st, {"part": "bfs"})
+    return [st]
+
+
+def run_main(tier, seed, jobs, st):
+    depth = 4 if tier == "quick" else 6
+    k = seed % len(EVENT_NAMES)
+    events = EVENT_NAMES[k:] + EVENT_NAMES[:k]
+    states = [[]]
+    res = kernel.bfs_parallel(Sim, apply, None, lambda s: s.canon(), jobs=jobs, static_events=events, max_depth=depth,
+                              max_states=3000000, collect_states=states)
+    st.states += res["states"]
+    st.transitions += res["transitions"]
+    st.traces += res["transitions"]
+    st.evaluations += res["transitions"]
+    st.nontrivial_n += sum(1 for h in states if len(h) >= 2)
+    seen = set()
+    for h, (sig, exp, obs) in res["verdicts"]:
+        if sig in seen:
+            st.count("more:" + sig)
+            continue
+        seen.add(sig)
+        st.violation(sig, {"part": "bfs", "hist": h}, exp, obs)
+    if res["capped"]:
+        st.caps.append("BFS state cap reached")
+    for part in kernel.parallel_map(_probe_chunk, states, jobs):
+        st.merge(part)
+    st.outcome(f"bfs depth {res['depth']}")
+    st.sample({"bfs": "request histories", "states": res["states"], "transitions": res["transitions"], "depth": res["depth"]})
 
 
 # ------------------------------------------------------------------ (b) BFS
@@ -185,33 +216,10 @@ def run_bfs(case, st):
         for sig, exp, obs in v:
             st.violation(sig, case, exp, obs)
         if "probe" in case:
-            probe(case["hist"], st, {k: case[k] for k in ("part", "first", "depth")})
+            probe(case["hist"], st, {"part": "bfs"})
         return
 
-    def on_state(h):
-        probe(h, st, case)
-        if len(h) >= 2:
-            st.nontrivial_n += 1
-
-    res = kernel.bfs(Sim, apply, None, lambda s: s.canon(), max_depth=case["depth"] - 1, root=[case["first"]],
-                     static_events=EVENT_NAMES, on_state=on_state)
-    # the root transition itself
-    sim = Sim()
-    for sig, exp, obs in apply(sim, case["first"]):
-        st.violation(sig, dict(case, hist=[case["first"]]), exp, obs)
-    st.states += res["states"]
-    st.transitions += res["transitions"] + 1
-    st.traces += res["transitions"] + 1
-    st.evaluations += res["transitions"] + 1
-    seen = set()
-    for h, (sig, exp, obs) in res["verdicts"]:
-        if sig in seen:
-            st.count("more:" + sig)
-            continue
-        seen.add(sig)
-        st.violation(sig, dict(case, hist=h), exp, obs)
-    st.outcome(f"subtree depth {res['depth'] + 1}")
-    st.sample({"first": case["first"], "states": res["states"], "transitions": res["transitions"]}, cap=3)
+    raise simenv.HarnessError("bfs cases are explored by run_main")
 
 
 # ------------------------------------------------------------------ (a) matrix
